@@ -1,1 +1,133 @@
-(* Proofs/GenC13Proofs.v - placeholder *)
+(** Proofs/GenC13Proofs.v — Tie B for C13: the machine [nstep] running the control-flow
+    tables GENERATED from the current source of Cache.get / Cache.clear (Gen/GenC13.v) is
+    the hand-written transition system [step] of Model/Cache.v, for all states and all
+    schedules; the generated pipeline-key expression is [pipeline_key]. *)
+From PV Require Import Cache CacheProofs GenC13.
+From Coq Require Import Lia.
+Open Scope string_scope.
+
+(** the program point of the model that each table index stands for *)
+Definition dec_get (n : nat) : pc :=
+  match n with
+  | 0 => P0 | 1 => PNcEnter | 2 => PNcExit | 3 => PReturn | 4 => PRaise | 5 => PAcquire
+  | 6 => PIfContains | 7 => PLoad | 8 => PRelease | 9 => PReleaseExc | 10 => PCreateEnter
+  | 11 => PCreateExit | 12 => PStore
+  | _ => PClearAll        (* beyond the table: a point at which a look-up does nothing *)
+  end.
+
+Definition dec_clear (n : nat) : pc :=
+  match n with
+  | 0 => P0 | 1 => PClearAll | 2 => PCRelease | 3 => PCReturn
+  | _ => PLoad            (* beyond the table: a point at which a clear does nothing *)
+  end.
+
+Definition conv (th : nthread) : thread :=
+  mkTh (nprog th)
+       (match nprog th with
+        | OClear :: _ => dec_clear (npc th)
+        | _ => dec_get (npc th)
+        end)
+       (nreg th).
+
+(** the two machines are in corresponding states *)
+Definition corr (n : nstate) (s : state) : Prop :=
+  (forall t, conv (nthreads n t) = threads s t) /\
+  (forall k, nstore n k = store s k) /\
+  nlock n = lock s /\ nnext n = next s /\ nnocache n = nocache s /\ nlog n = log s.
+
+Lemma corr_init nc progs : corr (ninit nc progs) (init nc progs).
+Proof.
+  repeat split. intros t. unfold conv; cbn. destruct (nth t progs []) as [|[]]; reflexivity.
+Qed.
+
+Lemma nupd_same f t th : nupd f t th t = th.
+Proof. unfold nupd. now rewrite Nat.eqb_refl. Qed.
+
+Lemma nupd_other f t th t' : t' <> t -> nupd f t th t' = f t'.
+Proof. unfold nupd. intros H. apply Nat.eqb_neq in H. now rewrite H. Qed.
+
+Lemma conv_finish rest : conv (mkNTh rest 0 None) = mkTh rest P0 None.
+Proof. unfold conv; cbn. destruct rest as [|[]]; reflexivity. Qed.
+
+Ltac split_pc n k :=
+  match k with
+  | O => destruct n as [|n]   (* beyond the table: [nth] needs one more case to reduce *)
+  | S ?k' => destruct n as [|n]; [|split_pc n k']
+  end.
+
+(** one step of the generated machine = one step of the model *)
+Lemma gen_step_is_model t n s :
+  corr n s -> corr (nstep gen_get_code gen_clear_code t n) (step t s).
+Proof.
+  intros (HT & HS & HL & HN & HC & HG).
+  pose proof (HT t) as Ht. unfold nstep, step. rewrite <- Ht.
+  destruct (nthreads n t) as [pr pcn rg] eqn:Hth. unfold conv. cbn [nprog npc nreg prog tpc reg].
+  destruct pr as [|[r ok|] rest]; [repeat split; assumption| |].
+  - (* look-up *)
+    split_pc pcn 13; cbn [nth gen_get_code dec_get goto];
+    rewrite <- ?HS, <- ?HL, <- ?HN, <- ?HC, <- ?HG;
+    repeat match goal with
+           | |- context [match ?x with _ => _ end] => destruct x eqn:?
+           end;
+    try (repeat split; assumption);
+    (split; [|split; [intros k; cbn; unfold supd, sempty; rewrite ?HS; reflexivity
+                     |repeat split; cbn; congruence]]);
+    intros t'; cbn [nthreads threads]; unfold goto;
+    (destruct (Nat.eq_dec t' t) as [->|Hne];
+     [rewrite ?nupd_same, ?upd_same; rewrite ?conv_finish; try reflexivity; apply HT
+     |rewrite ?nupd_other, ?upd_other by exact Hne; apply HT]).
+  - (* clear *)
+    split_pc pcn 4; cbn [nth gen_clear_code dec_clear goto];
+    rewrite <- ?HS, <- ?HL, <- ?HN, <- ?HC, <- ?HG;
+    repeat match goal with
+           | |- context [match ?x with _ => _ end] => destruct x eqn:?
+           end;
+    try (repeat split; assumption);
+    (split; [|split; [intros k; cbn; unfold supd, sempty; rewrite ?HS; reflexivity
+                     |repeat split; cbn; congruence]]);
+    intros t'; cbn [nthreads threads]; unfold goto;
+    (destruct (Nat.eq_dec t' t) as [->|Hne];
+     [rewrite ?nupd_same, ?upd_same; rewrite ?conv_finish; try reflexivity; apply HT
+     |rewrite ?nupd_other, ?upd_other by exact Hne; apply HT]).
+Qed.
+
+(** ... hence under every schedule, from every pair of corresponding states *)
+Lemma gen_run_is_model sched : forall n s,
+  corr n s -> corr (nrun gen_get_code gen_clear_code sched n) (run sched s).
+Proof.
+  induction sched as [|t sched IH]; intros n s H; [exact H|].
+  cbn. apply IH. apply gen_step_is_model. exact H.
+Qed.
+
+(** the machine compiled from the source, started on any programs, run under any schedule,
+    ends in the state the model ends in: same log, lock, counter; same store and same
+    threads (program, program point, register) pointwise *)
+Lemma gen_machine_is_model nc progs sched :
+  corr (nrun gen_get_code gen_clear_code sched (ninit nc progs)) (reach nc progs sched).
+Proof. apply gen_run_is_model. apply corr_init. Qed.
+
+Lemma gen_machine_log nc progs sched :
+  nlog (nrun gen_get_code gen_clear_code sched (ninit nc progs)) = log (reach nc progs sched).
+Proof. apply (gen_machine_is_model nc progs sched). Qed.
+
+(** the key expression of the current Loader.get_pipeline is the model's *)
+Lemma gen_pipeline_key_is_model parent name : gen_pipeline_key parent name = pipeline_key parent name.
+Proof. reflexivity. Qed.
+
+(** so everything proved about [reach] holds of the generated machine; the two headline
+    instances, restated on the machine itself *)
+Lemma gen_single_flight progs sched k :
+  length (created_for k (since_clear
+    (nlog (nrun gen_get_code gen_clear_code sched (ninit false progs))))) <= 1.
+Proof. rewrite gen_machine_log. apply single_flight. Qed.
+
+Lemma gen_no_cross_talk nc progs sched t r o :
+  let l := nlog (nrun gen_get_code gen_clear_code sched (ninit nc progs)) in
+  In (ERet t r o) l ->
+  exists t' r', In (ECreated t' r' o) l /\
+                gen_pipeline_key (fst r') (snd r') = gen_pipeline_key (fst r) (snd r).
+Proof.
+  cbn zeta. rewrite gen_machine_log. intros H.
+  destruct (returned_object_made_for_key nc progs sched t r o H) as (t' & r' & Hc & Hk).
+  exists t', r'. split; [exact Hc|exact Hk].
+Qed.
